@@ -52,6 +52,39 @@ static std::string handle(const std::vector<std::string>& a) {
     }
     return res;
   }
+  // BIG <shape> <n> : a collection with n children built in linear time (maps through deserializeMsgPack, which does
+  // not search for duplicate keys), serialized in both formats; prints for each: first 8 bytes, length, FNV-1a 64
+  if (a[0] == "BIG" && a.size() == 3) {
+    size_t n = std::stoul(a[2]);
+    JsonDocument doc;
+    if (a[1] == "arr-nil") { JsonArray ar = doc.to<JsonArray>(); for (size_t i = 0; i < n; i++) ar.add(nullptr); }
+    else if (a[1] == "arr-int") { JsonArray ar = doc.to<JsonArray>(); for (size_t i = 0; i < n; i++) ar.add(int(i % 7)); }
+    else if (a[1] == "map-int") {
+      std::string in;
+      if (n < 16) in += char(0x80 | n);
+      else if (n < 65536) { in += char(0xDE); in += char(n >> 8); in += char(n & 255); }
+      else { in += char(0xDF); in += char(n >> 24); in += char((n >> 16) & 255); in += char((n >> 8) & 255); in += char(n & 255); }
+      for (size_t i = 0; i < n; i++) {
+        std::string k = "k" + std::to_string(i);
+        in += char(0xA0 | k.size()); in += k; in += char(i % 7);
+      }
+      auto err = deserializeMsgPack(doc, in.data(), in.size());
+      if (err) return std::string("build-failed ") + err.c_str();
+    } else return "bad-shape";
+    if (doc.overflowed()) return "overflowed";
+    JsonVariantConst v = doc.as<JsonVariantConst>();
+    std::string res;
+    for (int fmt : {2, 0}) {
+      std::string s1; size_t n1 = ser_to(fmt, v, s1);
+      size_t m = measure(fmt, v);
+      unsigned long long h = 14695981039346656037ull;
+      for (unsigned char c : s1) { h ^= c; h *= 1099511628211ull; }
+      res += hex(s1.substr(0, 8)) + " " + std::to_string(s1.size()) + " " + std::to_string(h) + " ";
+      if (n1 != s1.size() || m != n1) res += "COUNT-DIFFERS ";
+    }
+    res += "size=" + std::to_string(v.size());
+    return res;
+  }
   // B <fmt> <cap> <dump> : serialize into a caller buffer of `cap` bytes with guard bytes around
   if (a[0] == "B" && a.size() == 4) {
     int fmt = std::stoi(a[1]);
